@@ -56,6 +56,15 @@ func buildPlan(id string, pinned map[string]string, tier string) *Plan {
 			"twisted-Edwards companions: not under contract", "numeric value of bCurveCoeff / bTwistCurveCoeff is not checked at the ring layer"}
 		p.Note = "Every branch of every Jacobian and extended-Jacobian addition, mixed addition, doubling, negation and conversion under contract returns a representative of the point prescribed by the chord-and-tangent law, for every representative of the inputs (all projective scalings), with the branch taken determined by the code's own zero/equality tests."
 		return p
+	case "C15":
+		p := &Plan{ID: id}
+		p.Units = append(p.Units, Unit{Pkg: "./fiat-shamir", Tags: "", Groups: []string{"transcript"}})
+		p.Trusted = []string{"interface hash.Hash (assumed contracts): Write does not retain its argument, Sum(nil) returns a newly allocated slice",
+			"escape analysis of the VC generator: an argument slice counts as retained when it (or a local object holding it) is stored into memory reachable after the call"}
+		p.NotCovered = []string{"the hashed content of a challenge (name, previous value, bindings in order) is not under contract: the map of challenges and the lists of bound values are not modelled",
+			"'errors leave the transcript unchanged' is only covered as far as the error paths return before any update (guards), not as a frame condition on the map"}
+		p.Note = "Bind: unknown / already computed challenges are refused with the documented errors, the bound slice is copied (the argument is never retained). ComputeChallenge: unknown challenge refused; a challenge at position > 0 is computed only if the previously computed challenge is its immediate predecessor; every returned slice is freshly allocated (not aliased with transcript state)."
+		return p
 	case "C16":
 		p := &Plan{ID: id}
 		p.Units = append(p.Units, Unit{Pkg: "./field/koalabear/vortex", Tags: "", Groups: []string{"merkle"}})
